@@ -4,12 +4,12 @@ package vsync
 
 type realMutex struct{}
 
-func (realMutex) lock()   {}
-func (realMutex) unlock() {}
+func (*realMutex) lock()   {}
+func (*realMutex) unlock() {}
 
 type realRWMutex struct{}
 
-func (realRWMutex) lock()    {}
-func (realRWMutex) unlock()  {}
-func (realRWMutex) rlock()   {}
-func (realRWMutex) runlock() {}
+func (*realRWMutex) lock()    {}
+func (*realRWMutex) unlock()  {}
+func (*realRWMutex) rlock()   {}
+func (*realRWMutex) runlock() {}
